@@ -51,6 +51,15 @@ def gen_spec(rng, ncomp=(1, 4), coupled=None, groups=None, sizes=(1, 2, 3), impl
                 'prom_in': [v for v in ins if promote and rng.random() < 0.3],
                 'prom_out': [v for v in outs if promote and rng.random() < 0.3]}
         comps.append(comp)
+    # put the components in the order in which OpenMDAO will execute them (groups run their subsystems in
+    # the order of addition), so that "connected to an earlier component" means feed-forward at every level
+    first = {}
+    for k, c in enumerate(comps):
+        parts = c['path'].split('.')
+        for j in range(1, len(parts) + 1):
+            first.setdefault('.'.join(parts[:j]), k)
+    comps.sort(key=lambda c: tuple(first['.'.join(c['path'].split('.')[:j])]
+                                   for j in range(1, len(c['path'].split('.')) + 1)))
     # make promoted names unique inside a group by suffixing with the component index
     seen = {}
     for k, c in enumerate(comps):
